@@ -52,7 +52,17 @@ pub fn run(tape: &[u8], cx: &Cx) -> Outcome {
     let mut t = Tape::new(ta);
     let mut tp = Tape::new(tb);
     let cfg = ProgCfg { tiny_alphabet: true, max_ins: 8, small_bound: 3, ..ProgCfg::default() };
-    let mut prog = Prog::decode(&mut tp, &cfg);
+    // a sixth of the patterns: the union of a pattern pair of C16's generator (rigid ranges around Sigma*
+    // sections against a near-miss instance): a union that drops an alternative it wrongly believes
+    // subsumed loses the matches only that alternative has
+    let pair_mode = tp.bool_p(42);
+    let mut prog = if pair_mode {
+        let (mut p, s, r) = crate::p_c16::gen_pair(&mut tp);
+        p.ins.push(if tp.flag() { Ins::Union(s, r) } else { Ins::Union(r, s) });
+        p
+    } else {
+        Prog::decode(&mut tp, &cfg)
+    };
     // a sixth of the patterns end in nested alternatives of one word: w | w[1..n-1] | w[2..n-2] | ...
     // (several candidate matches, each starting later and ending earlier than the previous one)
     let mut nested_word: Option<Vec<u32>> = None;
@@ -273,6 +283,9 @@ pub fn run(tape: &[u8], cx: &Cx) -> Outcome {
     }
     if nested_word.is_some() {
         o.tag("nested-alternatives");
+    }
+    if pair_mode {
+        o.tag("pattern-pair");
     }
     if prog.has(|i| matches!(i, Ins::Complement(_))) {
         o.tag("has-complement");
